@@ -301,6 +301,11 @@ private:
     unsigned int mExitCode{};
 
     AnalyzerInformation* mAnalyzerInformation{};
+
+#ifdef DANMAR_CPPCHECK_VERIF
+    // a new CppCheck instance starts with an empty duplicate list and a cleared exit flag
+    bool mVerifNew = verif::evt("NewChecker", "");
+#endif
 };
 
 
@@ -1344,6 +1349,7 @@ unsigned int CppCheck::checkInternal(const FileWithDetails& file, const std::str
 
     // TODO: clear earlier?
     mLogger->clear();
+    VERIF_EVT("DupClear", verif::kv("file", file.spath()));
 
     if (mTimerResults) {
         if (mSettings.showtime == Settings::ShowTime::FILE)
